@@ -1191,13 +1191,13 @@ PROPS = {
     "C15": dict(module="FV.Props.C15", theorems=["FV.Props.C15_emplace_total", "FV.Props.C15_accepts_iff_fits", "FV.Props.C15_vec_accepts_iff_fits", "FV.emplaceU_acc", "FV.flexFill_acc", "FV.repB_iff"], suites=["emplace"], proj=proj_C15, oracle=oracle_C15, post=post_C15),
     "C18": dict(module="FV.Props.C18", theorems=["FV.Props.C18_vec_from_iterator_partial", "FV.Props.C18_flex_from_iterator_partial", "FV.Props.C18_nested_enum_counterexample", "FV.Props.C18_failed_assign_leaves_valid", "FV.emplaceU_gsafe", "FV.emplaceU_assign_valid", "FV.own_bytes_validate"], suites=["emplace"], proj=proj_C18, oracle=oracle_C18),
     "C20": dict(module="FV.Props.C20", theorems=["FV.Props.C20_vec_default_partial", "FV.Props.C20_default_valid_partial", "FV.Props.C20_default_content", "FV.Props.C20_str_default_partial", "FV.Props.C20_flex_default_partial", "FV.Props.C20_default_size", "FV.Props.C20_empty_always_accepted"], suites=["emplace"], proj=proj_C20, oracle=oracle_C20, post=post_C20),
-    "C11": dict(module="FV.Props.C11", theorems=["FV.Props.C11_vec_step_refines", "FV.Props.C11_history", "FV.Props.C11_valid_gives_invariant"], suites=["ops"], proj=proj_C11, oracle=oracle_C11),
-    "C12": dict(module="FV.Props.C12Push", theorems=["FV.Props.C12_valid_iff_sequence", "FV.Props.C12_truncate", "FV.Props.C12_pop", "FV.Props.C12_push", "FV.Props.C12_pushed_item_content", "FV.Props.C12_history", "FV.Props.C12_push_accepts_iff", "FV.Props.C12_item_edit", "FV.Props.C12_truncate_noop", "FV.Chain.edit"], suites=["ops"], proj=proj_C12, oracle=oracle_C12, post=post_witness("C12")),
+    "C11": dict(module="FV.Props.C11", theorems=["FV.Props.C11_vec_step_refines", "FV.Props.C11_history", "FV.Props.C11_valid_gives_invariant", "FV.Props.C11_str_push", "FV.Utf8Ok.append"], suites=["ops"], proj=proj_C11, oracle=oracle_C11),
+    "C12": dict(module="FV.Props.C12Push", theorems=["FV.Props.C12_valid_iff_sequence", "FV.Props.C12_truncate", "FV.Props.C12_pop", "FV.Props.C12_push", "FV.Props.C12_pushed_item_content", "FV.Props.C12_history", "FV.Props.C12_push_accepts_iff", "FV.Props.C12_item_edit", "FV.Props.C12_truncate_noop", "FV.Chain.edit", "FV.Props.C12_len_is_empty"], suites=["ops"], proj=proj_C12, oracle=oracle_C12, post=post_witness("C12")),
     "C13": dict(module="FV.Props.C13", theorems=["FV.Props.C13_vec_refused_unchanged", "FV.Props.C13_flex_push_refused_unchanged", "FV.Props.C13_flex_push_refused_size", "FV.flexPush_refused_size"], suites=["ops"], proj=proj_C13, oracle=oracle_C13),
     "C14": dict(module="FV.Props.C14", theorems=["FV.Props.C14_write_frame", "FV.Props.C14_item_edit_frame", "FV.Props.C14_emplace_inside", "FV.Props.C14_assign_frame", "FV.Props.C14_truncate_frame", "FV.Props.C14_field_write_frame", "FV.Props.posList_disjoint", "FV.Props.C14_setField_frame"], suites=["emplace", "ops"], proj=proj_C14, oracle=oracle_C14),
-    "C07": dict(module="FV.Props.C07", theorems=["FV.Props.C07_sender_delivers", "FV.Props.C07_receiver_delivers", "FV.Props.C07_receiver_delivers_anywhere", "FV.Props.C07_emplaced_is_deliverable", "FV.Props.C07_retain_returns_same", "FV.Ty.addrIndep"], suites=["io"], proj=proj_C07, oracle=oracle_io_basic, post=post_io("C07")),
+    "C07": dict(module="FV.Props.C07", theorems=["FV.Props.C07_sender_delivers", "FV.Props.C07_receiver_delivers", "FV.Props.C07_receiver_delivers_anywhere", "FV.Props.C07_emplaced_is_deliverable", "FV.Props.C07_sent_content_arrives", "FV.Props.C07_retain_returns_same", "FV.Ty.addrIndep"], suites=["io"], proj=proj_C07, oracle=oracle_io_basic, post=post_io("C07")),
     "C08": dict(module="FV.Props.C08", theorems=["FV.Props.C08_sender_refines_blocking", "FV.Props.C08_receiver_refines_blocking", "FV.Props.C08_pipe_fifo", "FV.Props.C08_pipe_fair_delivers"], suites=["aio"], proj=proj_C08, oracle=oracle_io_basic, post=post_io("C08")),
-    "C09": dict(module="FV.Props.C09", theorems=["FV.Props.C09_send_fault", "FV.Props.C09_session_sink_shape", "FV.Props.C09_read_error_keeps_bytes", "FV.Props.C09_receiver_retries_deliver", "FV.Props.C09_send_error_is_first_failure", "FV.Props.C09_send_kind_blind", "FV.Props.C09_async_poll_kind_blind", "FV.Props.C09_recv_error_is_pipes_error", "FV.Props.C09_recv_kind_blind"], suites=["io", "aio"], proj=proj_C09, oracle=oracle_io_basic, post=post_io("C09")),
+    "C09": dict(module="FV.Props.C09", theorems=["FV.Props.C09_send_fault", "FV.Props.C09_session_sink_shape", "FV.Props.C09_read_error_keeps_bytes", "FV.Props.C09_receiver_retries_deliver", "FV.Props.C09_send_error_is_first_failure", "FV.Props.C09_send_kind_blind", "FV.Props.C09_async_poll_kind_blind", "FV.Props.C09_recv_error_is_pipes_error", "FV.Props.C09_recv_kind_blind", "FV.Props.C09_session_faults_surface"], suites=["io", "aio"], proj=proj_C09, oracle=oracle_io_basic, post=post_io("C09")),
     "C10": dict(module="FV.Props.C10", theorems=["FV.Props.C10_recv_never_faults", "FV.Props.C10_flex_bad_offset_is_content_error", "FV.Props.C10_content_error_is_final", "FV.Props.C10_stream_goes_bad", "FV.Props.C10_stream_goes_bad_anywhere"], suites=["io", "aio"], proj=proj_C10, oracle=oracle_C10, post=post_io("C10")),
     "C16": dict(module="FV.Props.C16", theorems=["FV.Props.C16_size", "FV.Props.C16_byte_order", "FV.Props.C16_native_roundtrip", "FV.Props.C16_bytes_roundtrip", "FV.Props.C16_eq_iff", "FV.Props.C16_delegates", "FV.Props.C16_bool_validate"], suites=["portable"], proj=proj_C16, oracle=oracle_C16),
     "C17": dict(module="FV.Props.C17Ser", theorems=["FV.Props.C17_align_one", "FV.Props.C17_no_padding", "FV.Props.C17_image_is_serialisation", "FV.emplaceU_ser", "FV.flexFill_ser"], suites=["emplace", "bytes"], proj=proj_C17, oracle=oracle_C17, post=post_C17),
@@ -1224,14 +1224,18 @@ BRIDGE_GROUPS = {
     "guards": ["guard_checkAlignMin", "guard_vecValidate", "guard_strValidate", "guard_flexSlotAlign", "guard_flexSlot", "guards_untranslatable_none"],
     "guards_emplace": ["guard_checkAlignMin", "guard_vecFromArray", "guard_flexFillRoom", "guard_flexFillSeal", "guards_untranslatable_none"],
     "guards_push": ["guard_flexPushSeal", "guards_untranslatable_none"],
+    # the IO layer: window arithmetic of `Buffer`, the capacities the constructors allocate, and the decision points of
+    # `write_all` / `WriteAll::poll` / `read` / `poll_read` / `recv` (conditions only; FV/BridgeIo.lean)
+    "io_send": ["io_write_all_step", "aio_write_all_step", "aio_write_all_flush", "io_capacities", "io_untranslatable_none"],
+    "io_recv": ["io_read_step", "io_make_contiguous", "aio_read_tests", "io_recv_closed", "aio_recv_closed", "io_capacities", "io_untranslatable_none"],
 }
 LAYOUT = ["arith", "iter", "vec", "str", "flex", "macro", "guards"]
 EMPLACE = LAYOUT + ["guards_emplace", "flex_fill"]
 BRIDGE_OF = {
-    "C01": LAYOUT, "C02": LAYOUT, "C03": EMPLACE, "C04": LAYOUT, "C05": LAYOUT, "C06": LAYOUT, "C07": LAYOUT, "C10": LAYOUT,
+    "C01": LAYOUT, "C02": LAYOUT, "C03": EMPLACE, "C04": LAYOUT, "C05": LAYOUT, "C06": LAYOUT, "C07": LAYOUT + ["io_send", "io_recv"], "C10": LAYOUT + ["io_recv"],
     "C11": ["arith", "vec", "str"], "C12": ["arith", "flex", "flex_fill", "guards", "guards_emplace", "guards_push"],
     "C13": ["arith", "vec", "str", "flex", "flex_fill", "guards", "guards_emplace", "guards_push"], "C14": EMPLACE, "C15": EMPLACE,
-    "C16": ["portable"], "C17": EMPLACE, "C18": EMPLACE, "C19": ["arith", "iter", "macro", "vec", "flex", "guards"], "C20": EMPLACE, "C08": [], "C09": [],
+    "C16": ["portable"], "C17": EMPLACE, "C18": EMPLACE, "C19": ["arith", "iter", "macro", "vec", "flex", "guards"], "C20": EMPLACE, "C08": ["io_send", "io_recv"], "C09": ["io_send", "io_recv"],
 }
 def regenerate_formulas():
     rc, out = sh([sys.executable, os.path.join(VERIF, "tools", "extract_formulas.py")], env={"VERIF_REPO": REPO})
@@ -1245,18 +1249,19 @@ def lean_obligations(prop, cfg, thorough):
     ok_build, out = build_lean([cfg["module"], "fvdriver"])
     bridge_ok, bridge_out = (True, "")
     if bridge:
-        bridge_ok, bridge_out = build_lean(["FV.Bridge"])
+        bridge_ok, bridge_out = build_lean(["FV.Bridge", "FV.BridgeIo"])
         if not bridge_ok or not tr_ok:
             # which equations fail: the generated file is small, so the failing theorem names are in the compiler output
-            failing = set(re.findall(r"FV/Bridge\.lean:(\d+):", bridge_out))
-            src = open(os.path.join(LEAN, "FV", "Bridge.lean")).read().split("\n")
             bad_names = set()
-            for ln in failing:
-                i = int(ln) - 1
-                while i >= 0 and not src[i].startswith("theorem "):
-                    i -= 1
-                if i >= 0:
-                    bad_names.add(src[i].split()[1])
+            for fname in ("Bridge", "BridgeIo"):
+                failing = set(re.findall(r"FV/" + fname + r"\.lean:(\d+):\d+: error", bridge_out)) or set(re.findall(r"error: FV/" + fname + r"\.lean:(\d+):", bridge_out))
+                src = open(os.path.join(LEAN, "FV", fname + ".lean")).read().split("\n")
+                for ln in failing:
+                    i = int(ln) - 1
+                    while i >= 0 and not src[i].startswith("theorem "):
+                        i -= 1
+                    if i >= 0:
+                        bad_names.add(src[i].split()[1])
             for b in bridge:
                 short = b.split(".")[-1]
                 if short in bad_names or (not bad_names):
@@ -1274,7 +1279,7 @@ def lean_obligations(prop, cfg, thorough):
     with open(ap, "w") as f:
         f.write(f"import {cfg['module']}\n")
         if bridge and bridge_ok and tr_ok:
-            f.write("import FV.Bridge\n")
+            f.write("import FV.Bridge\nimport FV.BridgeIo\n")
         for th in audit_list:
             f.write(f"#print axioms {th}\n")
     rc, aout = sh(["lake", "env", "lean", ap], cwd=LEAN, timeout=1800)
